@@ -226,15 +226,26 @@ func descNames(ns []string, L int) string {
 // string bodies between two Flush calls, every record far inside the documented limits, default
 // options: the stream must read back (the writer must have cut frames on its own).
 func bigPlainStringCases(prop string) {
-	recs, each := 23, 3<<20
+	recs0 := 23
 	if thorough {
-		recs = 40
+		recs0 = 40
 	}
-	for ci, comp := range []pkg.Compression{pkg.CompressionNone} {
-		name := fmt.Sprintf("plain-strings-%dx%dMiB-c%d", recs, each>>20, ci)
+	// the second configuration: small records (one 64 KiB string each) and a raised frame limit
+	// (48 MiB, below the decoder's FrameSizeLimit), so that ONE column of ONE frame passes
+	// RecordAllocLimit (32 MiB) while no record comes near it
+	type cfg struct {
+		recs, each int
+		opts       pkg.WriterOptions
+	}
+	for ci, c := range []cfg{
+		{recs0, 3 << 20, pkg.WriterOptions{Compression: pkg.CompressionNone}},
+		{640, 64 << 10, pkg.WriterOptions{Compression: pkg.CompressionNone, MaxUncompressedFrameByteSize: 48 << 20}},
+	} {
+		recs, each := c.recs, c.each
+		name := fmt.Sprintf("plain-strings-%dx%dKiB-c%d", recs, each>>10, ci)
 		note("case %s", name)
 		cw := &chunkLog{}
-		w, err := otelstef.NewSpansWriter(cw, pkg.WriterOptions{Compression: comp})
+		w, err := otelstef.NewSpansWriter(cw, c.opts)
 		if err != nil {
 			propFail("%s plainstr-writer case=%s %v", prop, name, err)
 			continue
@@ -274,7 +285,7 @@ func bigPlainStringCases(prop string) {
 		}
 		for i := 0; i < recs; i++ {
 			if err := rd.Read(pkg.ReadOptions{}); err != nil {
-				propFail("%s plainstr-not-readable case=%s %d records with a distinct %d MiB plain string each (TraceState), default writer options, one Flush at the end: the largest chunk the writer emitted has %d bytes; Read of record %d returned: %v", prop, name, recs, each>>20, maxFrame, i, err)
+				propFail("%s plainstr-not-readable case=%s %d records with a distinct %d KiB plain string each (TraceState), writer options %+v, one Flush at the end: the largest chunk the writer emitted has %d bytes; Read of record %d returned: %v", prop, name, recs, each>>10, c.opts, maxFrame, i, err)
 				break
 			}
 			ts := rd.Record.Span().TraceState()
